@@ -28,7 +28,7 @@ EXPLANATION = (
 NOT_DECIDED = ["decoded header / address / body values", "date conversion", "charset fallbacks", "that mailparser and the stdlib parser agree on a given message",
                "attachments whose MIME type is generic (application/octet-stream) are skipped although their name is supported (is_supported_mime_type gate, documented behaviour)"]
 TRUSTED = ["email.message.Message.walk / get_payload(decode=True) / get_filename, mailparser's attachment dictionaries, re module semantics"]
-FLOORS = {"C16-SIB": 27, "C16-ATT": 6, "C16-ORDER": 2, "C16-SEP": 15, "C16-ROUTE": 5, "C16-BYTES": 6}
+FLOORS = {"C16-SIB": 27, "C16-ATT": 6, "C16-ORDER": 2, "C16-SEP": 36, "C16-ROUTE": 5, "C16-BYTES": 6}
 
 EML = X + "mail/eml_email_extractor.py"
 MBOX = X + "mail/mbox_email_extractor.py"
@@ -240,6 +240,16 @@ LINE = b"From alice@example.org Mon Jan  1 10:00:00 2024"
 BODY = b"Subject: x\n\nbody"
 
 
+# From_ lines as mailbox writers emit them (RFC 4155 asctime; Gmail Takeout puts the zone before the year; some MTAs append it;
+# bounces use MAILER-DAEMON as the envelope sender)
+SEPARATOR_FORMS = [
+    ("asctime", LINE),
+    ("zone before the year (Gmail Takeout)", b"From 1712345678901234567@xxx Mon Jan 01 10:00:00 +0000 2024"),
+    ("trailing numeric zone", b"From alice@example.org Mon Jan  1 10:00:00 2024 +0100"),
+    ("MAILER-DAEMON sender", b"From MAILER-DAEMON Mon Jan  1 10:00:00 2024"),
+]
+
+
 def rule_sep(ctx: Ctx) -> RuleReport:
     rep = RuleReport("C16-SEP", "the mbox separator pattern matches exactly at line starts, for LF and CRLF mailboxes alike")
     m = ctx.p.module(MBOX)
@@ -268,14 +278,15 @@ def rule_sep(ctx: Ctx) -> RuleReport:
         contexts = [("start of file", b""), ("after a blank line", b"previous line" + eol + eol),
                     ("after a message body", BODY.replace(b"\n", eol) + eol + eol)]
         for cname, prefix in contexts:
-            # a separator line must be found exactly at len(prefix)
-            text = prefix + LINE + eol + BODY.replace(b"\n", eol)
-            starts = [mm.start() for mm in rx.finditer(text)]
-            if starts == [len(prefix)]:
-                rep.ok({"eol": eol_name, "context": cname, "separator": "recognised"})
-            else:
-                rep.fail(Finding("C16-SEP", MBOX, "MBOX_FROM_PATTERN", f"separator line {cname} ({eol_name}) -> matches at {starts}",
-                                 f"a From_ line {cname} in a {eol_name} mailbox is {'not recognised' if not starts else 'matched at the wrong place'}: messages are merged or split wrongly", line=node.lineno))
+            # a separator line must be found exactly at len(prefix), in each form mailbox writers use
+            for vname, sep_line in SEPARATOR_FORMS:
+                text = prefix + sep_line + eol + BODY.replace(b"\n", eol)
+                starts = [mm.start() for mm in rx.finditer(text)]
+                if starts == [len(prefix)]:
+                    rep.ok({"eol": eol_name, "context": cname, "form": vname, "separator": "recognised"})
+                else:
+                    rep.fail(Finding("C16-SEP", MBOX, "MBOX_FROM_PATTERN", f"separator line ({vname}) {cname} ({eol_name}) -> matches at {starts}",
+                                     f"a From_ line in the {vname} form {cname} in a {eol_name} mailbox is {'not recognised' if not starts else 'matched at the wrong place'}: messages are merged or split wrongly", line=node.lineno))
             # quoted and mid-line occurrences are never separators
             for what, line in (("quoted '>From'", b">" + LINE), ("'From' in mid line", b"x " + LINE)):
                 text2 = prefix + line + eol + b"rest"
